@@ -239,7 +239,7 @@ fn c18_twin_reach() {
 }
 """, functions=["Place::set_dorsal", "Segment::set_feat"], symbolic="as the setter harnesses", shape="assert(false) twin", expect="fail"))
     return {
-        "harnesses": hs, "cap_s": 900, "jobs": 16,
+        "harnesses": hs, "cap_s": 900, "jobs": 16, "second_solver": "kissat" if tier == "thorough" else None,
         "bounds": ["loop-free code: no unwinding bound; the only bounds are the types (u8 bytes, Option<u16> place)",
                    "values passed to set_* are within the documented range (<=3, <=63; debug_assert in the code)"],
         "outside": ["out-of-range payloads to Place::set_* / Segment::set_node (documented precondition)", "NodeKind::Place with get_node/set_node/get_feat (documented panic)"],
